@@ -612,6 +612,8 @@ pub fn run_session(spec: &SessionSpec, verbose: bool) -> SessionResult {
 struct GEnv {
     /// completed globals: (name, kind) with kind in int, float, str (literal), fresh (string(n)), arr
     globals: Vec<(String, &'static str)>,
+    /// names declared by lines that failed to parse or compile: unknown afterwards, free to declare again
+    failed: Vec<String>,
 }
 
 impl GEnv {
@@ -638,7 +640,7 @@ fn line(label: &str, stmts: Vec<SStmt>, fail: Fail, has_value: bool, injectable:
     }
 }
 
-pub const ALPHABET: usize = 22;
+pub const ALPHABET: usize = 25;
 
 /// Template `t` at session position `pos` (names are position-based, so never re-declared).
 fn template(t: usize, pos: usize, env: &mut GEnv) -> SLine {
@@ -725,13 +727,16 @@ fn template(t: usize, pos: usize, env: &mut GEnv) -> SLine {
             l
         }
         12 => line("parse-fail", vec![st(&format!("stel {} = (1 + ", g), false)], Fail::Parse, false, false),
-        13 => line(
-            "compile-fail-after-decl",
-            vec![st(&format!("stel {} = 1;", g), true), st("onbekend;", false)],
-            Fail::Compile,
-            false,
-            false,
-        ),
+        13 => {
+            env.failed.push(g.clone());
+            line(
+                "compile-fail-after-decl",
+                vec![st(&format!("stel {} = 1;", g), true), st("onbekend;", false)],
+                Fail::Compile,
+                false,
+                false,
+            )
+        }
         14 => line("compile-fail-stop", vec![st("stop;", false)], Fail::Compile, false, false),
         15 => line(
             "compile-fail-nested",
@@ -788,6 +793,36 @@ fn template(t: usize, pos: usize, env: &mut GEnv) -> SLine {
             Some(n) => line("print", vec![st(&format!("print(\"v={{}}\", {});", n), false)], Fail::None, true, true),
             None => line("print", vec![st("print(\"leeg\");", false)], Fail::None, true, true),
         },
+        22 => match env.failed.pop() {
+            // a name that only a failed line declared is declared (again) and read
+            Some(n) => {
+                env.globals.push((n.clone(), "int"));
+                line("redeclare-name-of-failed-line", vec![st(&format!("stel {} = 5;", n), true), st(&format!("{};", n), false)], Fail::None, true, true)
+            }
+            None => template(0, pos, env),
+        },
+        23 => match env.failed.last() {
+            // a name that only a failed line declared is unknown
+            Some(n) => line("reference-name-of-failed-line", vec![st(&format!("{};", n), false)], Fail::Compile, false, false),
+            None => line("reference-unknown", vec![st("onbekend;", false)], Fail::Compile, false, false),
+        },
+        24 => {
+            // compile failure inside a block at the top level that shadows a global (or declares a new name)
+            let n = match env.latest_any() {
+                Some(n) => n,
+                None => {
+                    env.failed.push(g.clone());
+                    g.clone()
+                }
+            };
+            line(
+                "compile-fail-in-block",
+                vec![st(&format!("als ja {{ stel {} = 99; onbekend{}; }};", n, pos), false)],
+                Fail::Compile,
+                false,
+                false,
+            )
+        }
         _ => match env.latest("arr") {
             // a value handed out earlier (the array) receives a fresh element, a collection runs, it is read again
             Some(n) => line(
@@ -808,7 +843,7 @@ fn template(t: usize, pos: usize, env: &mut GEnv) -> SLine {
 }
 
 fn enumerated_session(mut code: u64, len: usize) -> Vec<SLine> {
-    let mut env = GEnv { globals: Vec::new() };
+    let mut env = GEnv { globals: Vec::new(), failed: Vec::new() };
     let mut lines = Vec::new();
     for pos in 0..len {
         let t = (code % ALPHABET as u64) as usize;
@@ -829,7 +864,11 @@ fn enumerated_session(mut code: u64, len: usize) -> Vec<SLine> {
                 }
                 env = e2;
             }
-            _ => env = before,
+            _ => {
+                let failed = env.failed.clone();
+                env = before;
+                env.failed = failed;
+            }
         }
         lines.push(l);
     }
@@ -846,6 +885,8 @@ struct SGen<'a> {
     cfg: Swarm,
     /// functions defined on the line being generated (callable on this line only)
     line_funs: Vec<(String, Vec<Ty>, Ty)>,
+    /// names declared only by lines that failed to parse or compile
+    failed_names: Vec<String>,
 }
 
 impl<'a> SGen<'a> {
@@ -1000,6 +1041,7 @@ impl<'a> SGen<'a> {
             counters: (0, 0, 0),
             cfg,
             line_funs: Vec::new(),
+            failed_names: Vec::new(),
         }
     }
 }
@@ -1035,6 +1077,23 @@ impl<'a> SGen<'a> {
             self.add(&i, Ty::Int, 0);
             return l;
         }
+        if !self.failed_names.is_empty() && self.rng.chance(1, 3) {
+            // a name that only a failed line declared is free: declare it and read it
+            let i = self.rng.usize(self.failed_names.len());
+            let name = self.failed_names.remove(i);
+            let ty = self.with_gen(|g| g.value_ty());
+            let e = self.with_gen(|g| g.expr(&ty, 2));
+            let e = Self::wrap_int(&ty, e);
+            let l = line(
+                "redeclare-name-of-failed-line",
+                vec![st(&format!("stel {} = {};", name, e), true), st(&format!("{};", name), false)],
+                Fail::None,
+                true,
+                true,
+            );
+            self.add(&name, ty, 0);
+            return l;
+        }
         let n = 1 + self.rng.usize(4);
         let mut stmts = Vec::new();
         let mut labels = Vec::new();
@@ -1066,7 +1125,9 @@ impl<'a> SGen<'a> {
                 if self.rng.chance(1, 2) {
                     let (s, d, _) = self.atomic_stmt();
                     stmts.push(s);
-                    let _ = d;
+                    if let Some((name, _, _)) = d {
+                        self.failed_names.push(name);
+                    }
                 }
                 self.globals.truncate(before);
                 self.line_funs.clear();
@@ -1079,19 +1140,35 @@ impl<'a> SGen<'a> {
                 let before = self.globals.len();
                 let k = self.rng.usize(3);
                 let mut stmts = Vec::new();
+                let mut declared_here: Vec<String> = Vec::new();
                 for _ in 0..k {
                     let (s, d, _) = self.atomic_stmt();
                     stmts.push(s);
                     if let Some((name, ty, ml)) = d {
+                        declared_here.push(name.clone());
                         self.add(&name, ty, ml);
                     }
                 }
                 let u = format!("onbekend{}", self.counters.0);
-                let bad = match self.rng.below(6) {
+                // the failing block may shadow an existing global or declare a new name
+                let shadow: Option<String> = if before > 0 && self.rng.chance(1, 2) { Some(self.globals[self.rng.usize(before)].name.clone()) } else { None };
+                let bad = match self.rng.below(8) {
                     0 => format!("{};", u),
                     1 => "stop;".to_string(),
                     2 => "volgende;".to_string(),
-                    3 => format!("als ja {{ stel t{} = 1; {}; }};", self.counters.0, u),
+                    6 if !self.failed_names.is_empty() => format!("{};", self.rng.pick(&self.failed_names)),
+                    3 | 6 | 7 => {
+                        let t = match shadow {
+                            Some(n) => n,
+                            None => {
+                                let t = format!("t{}", self.counters.0);
+                                declared_here.push(t.clone());
+                                t
+                            }
+                        };
+                        let kw = if self.rng.chance(1, 3) { "zolang nee" } else { "als ja" };
+                        format!("{} {{ stel {} = 1; {}; }};", kw, t, u)
+                    }
                     4 => format!("functie f{}(a) {{ stel b = [a]; {{ {} }} }};", self.counters.1 + 50, u),
                     _ => format!("stel w{} = [1, \"s\", {}];", self.counters.0, u),
                 };
@@ -1099,6 +1176,7 @@ impl<'a> SGen<'a> {
                 // nothing of this line exists afterwards
                 self.globals.truncate(before);
                 self.line_funs.clear();
+                self.failed_names.extend(declared_here);
                 line("compile-fail", stmts, Fail::Compile, false, false)
             }
             _ => {
@@ -1302,6 +1380,18 @@ fn directed(i: usize) -> Option<SessionSpec> {
 }
 
 pub const DIRECTED: u64 = 9;
+
+/// a short random session (Miri adjunct)
+pub fn small_session(seed: u64, i: u64) -> SessionSpec {
+    if i < 3 {
+        return directed([2usize, 4, 8][i as usize]).unwrap();
+    }
+    let mut rng = Rng::new(mix(seed, TAG ^ 0x77, i));
+    let mut sp = random_session(&mut rng);
+    sp.lines.truncate(5);
+    sp.alloc_mode = alloc::PLAIN;
+    sp
+}
 
 // ---------------------------------------------------------------------------------------------
 // scenarios
